@@ -296,8 +296,12 @@ func buildStartG(t *testing.T, name, into string) error {
 		r := g.repo
 		steps := []func() error{
 			func() error { return r.InitializeRoot(world.Ctx, fileSigner("R0"), false, rootopts.WithRSLEntry()) },
-			func() error { return r.AddTopLevelTargetsKey(world.Ctx, fileSigner("R0"), principal("T0"), false, entry) },
-			func() error { return r.InitializeTargets(world.Ctx, fileSigner("T0"), policy.TargetsRoleName, false, entry) },
+			func() error {
+				return r.AddTopLevelTargetsKey(world.Ctx, fileSigner("R0"), principal("T0"), false, entry)
+			},
+			func() error {
+				return r.InitializeTargets(world.Ctx, fileSigner("T0"), policy.TargetsRoleName, false, entry)
+			},
 			func() error {
 				return r.AddPrincipalToTargets(world.Ctx, fileSigner("T0"), policy.TargetsRoleName, []tuf.Principal{principal("P0")}, false, entry)
 			},
